@@ -449,7 +449,7 @@ class TorrentFile(MetaFile, ProgMixin):
         kws = {
             "progress": self.progress,
             "progress_bar": None,
-            "align": self.align,
+            "align": self.align and not os.path.isfile(self.path),
         }
 
         if self.progress == 2:
